@@ -71,7 +71,7 @@ def load_known():
 # ----------------------------------------------------------------------------------------------
 # reflective-checker properties (C08, C07, C05): shared flow
 # ----------------------------------------------------------------------------------------------
-def reflective(prop, tier, seed, oracle_module, level_note, extra_obligations=None, ncorr=None, oracle_args=None, gprops=True, seq_obligations=None, theorems=None):
+def reflective(prop, tier, seed, oracle_module, level_note, extra_obligations=None, ncorr=None, oracle_args=None, gprops=True, seq_obligations=None, theorems=None, theory_obligations=None):
     t0 = time.time()
     problems = []       # broken obligations / correspondences (strings)
     with coqbuild.Lock():
@@ -82,7 +82,7 @@ def reflective(prop, tier, seed, oracle_module, level_note, extra_obligations=No
             p = run(['python3', os.path.join(HERE, 'mkprops.py'), prop])
             if p.returncode != 0:
                 problems.append('mkprops: ' + (p.stdout + p.stderr)[-1500:])
-        th = coqbuild.build_theories()
+        th = coqbuild.build_theories(NEEDS.get(prop))
         for r in th:
             if not r['ok']:
                 problems.append('theory %s does not compile: %s' % (r['file'], r['out'][-800:]))
@@ -98,6 +98,11 @@ def reflective(prop, tier, seed, oracle_module, level_note, extra_obligations=No
         if extra_obligations:
             obl += extra_obligations
         ores = coqbuild.build_many(obl)
+        if theory_obligations:
+            for r in th:
+                if os.path.basename(r['file'])[:-2] in theory_obligations:
+                    ores.append(r)
+                    obl.append(r['file'])
         # hand-written property files with dependencies between them: built in the given order
         for f in (seq_obligations or []):
             r = coqbuild.build_one(f, timeout=1800)
@@ -230,7 +235,41 @@ def check_C04(tier, seed):
                       theorems=['C04_system_h0', 'C04_system_hN', 'C04_closed_h0', 'C04_closed_hN'])
 
 
-CHECKS = {'C04': check_C04, 'C08': check_C08, 'C07': check_C07, 'C05': check_C05}
+def check_C02(tier, seed):
+    return reflective('C02', tier, seed, 'oracle_C02',
+                      'Proved: (1) on the control model of newton() (theories/Newton.v, agrees with the implementation decision-for-decision on '
+                      'every generated trace incl. NaN norms): the returned iterate is x0 or an accepted strictly-decreasing iterate, and '
+                      'no warning implies residual(x_best) <= 1e4*tol = 1e-9, for every stream of norms (NaN included, after the fix); '
+                      '(2) on the programs regenerated from _residual/_jacobian: residual(x+eps h) = residual(x) + eps J(x)h + eps^2 A + eps^3 B '
+                      'for every state, direction, eps and linear differentiation operator; (3) sigma[0] = sigma0 and iotaN = iota + helicity*nfp '
+                      'from the regenerated glue of solve_sigma_equation. NOT proved: agreement of iota with a shooting solution of the continuous '
+                      'ODE as nphi grows (a convergence theorem for pseudo-spectral collocation). Order facts about IEEE comparisons '
+                      '(ltb transitive/irreflexive, ltb-leb transitivity) are hypotheses of the Newton theorems, checked exhaustively on a float sample.',
+                      gprops=False, seq_obligations=['props/C02.v'], theory_obligations=['Newton'],
+                      theorems=['C02_jacobian_exact', 'C02_sigma0_pinned', 'Newton.never_worse_than_initial', 'Newton.no_warning_means_best_small',
+                                'Newton.accepted_chain_decreasing', 'Newton.nan_always_warns'])
+
+
+def check_C20(tier, seed):
+    return reflective('C20', tier, seed, 'kernels',
+                      'Proved for every grid size n and every interval, on the hand-written list model of spectral_diff_matrix (bitwise equal to '
+                      'the implementation on every generated size): antisymmetric; for odd n circulant, zero row sums, commutes with cyclic shifts and '
+                      'anticommutes with reversal (even n: the same under the stated condition that the Nyquist entry 1/tan(pi/2) is exactly 0). '
+                      'Newton control laws as in C02. fourier_minimum bracket logic and interpolation-weight identities in theories/Bracket.v. '
+                      'NOT proved (harness only): exact differentiation of every resolvable mode, exactness of the interpolant away from the '
+                      'nodes, Newton convergence on smooth well-posed systems.',
+                      gprops=False, seq_obligations=[], theory_obligations=['Newton', 'DiffMat', 'Bracket'],
+                      theorems=['DiffMat.DR_antisym', 'DiffMat.DR_circulant', 'DiffMat.DR_rowsum', 'DiffMat.DR_shift', 'DiffMat.DR_rev',
+                                'Newton.never_worse_than_initial', 'Newton.accepted_chain_decreasing', 'Newton.no_warning_means_best_small'])
+
+
+# hand-written theories each check depends on (others are not built, so work in progress elsewhere cannot disturb it)
+NEEDS = {
+    'C08': ['Expr', 'Equiv', 'Dim'], 'C07': ['Expr', 'Equiv', 'Sign'], 'C05': ['Expr', 'Equiv', 'Shift'],
+    'C04': ['Expr', 'Shallow'], 'C02': ['Expr', 'Shallow', 'Newton'],
+    'C20': ['Expr', 'Equiv', 'Sign', 'Shift', 'DiffMat', 'Newton', 'Bracket'],
+}
+CHECKS = {'C02': check_C02, 'C20': check_C20, 'C04': check_C04, 'C08': check_C08, 'C07': check_C07, 'C05': check_C05}
 
 
 def main():
@@ -242,7 +281,7 @@ def main():
     seed = int(os.environ.get('VERIF_SEED', '20240930'))
     if a.replay:
         rep = json.load(open(a.replay))
-        mod = {'C08': 'oracle_C08', 'C07': 'oracle_sym', 'C05': 'oracle_sym', 'C04': 'oracle_C04'}.get(a.prop)
+        mod = {'C08': 'oracle_C08', 'C07': 'oracle_sym', 'C05': 'oracle_sym', 'C04': 'oracle_C04', 'C02': 'oracle_C02', 'C20': 'kernels'}.get(a.prop)
         res = harness(mod, (['--prop', a.prop] if mod == 'oracle_sym' else []) + ['--mode', 'replay', '--file', a.replay])
         print(json.dumps(res, indent=1))
         return 1 if res.get('violations') else 0
